@@ -207,6 +207,9 @@ func (f File) Validate() error {
 			var memberFields []Field
 			if fd.Struct != nil {
 				memberFields = fd.Struct.Fields
+				// a member struct can be used as a field type like any other struct,
+				// so it takes part in the check for structs that contain themselves
+				structTypeUsage[fd.name()] = fd.Struct.usedTypes()
 			}
 			if fd.Message != nil {
 				for _, mfd := range fd.Message.Fields {
